@@ -170,6 +170,11 @@ def ncf2uamiv(ncffile, outpath):
         time_e = time_s.copy() + tincr
         date_e += (time_e // 24).astype('i')
         time_e -= (time_e // 24) * 24
+        # roll YYJJJ into the next year past day 365/366
+        ylen = np.where(date_e // 1000 % 4 == 0, 366, 365)
+        date_e = np.where(date_e % 1000 > ylen,
+                          (date_e // 1000 + 1) % 100 * 1000 +
+                          date_e % 1000 - ylen, date_e)
     time_hdr['ibdate'] = date_s
     time_hdr['btime'] = time_s
     time_hdr['iedate'] = date_e
